@@ -90,10 +90,12 @@ inline cocls::with_allocator<Arena, cocls::async<void>> sp_awaiter(Arena &, Worl
     w->sp_awaits_done++;
 }
 inline cocls::generator<int> counting_gen() { for (int i = 1;; i++) co_yield i; }
+// generator with an argument: every step is handed an argument and answers argument + 1
+inline cocls::generator<int, int> echo_gen() { int a = co_yield nullptr; for (;;) a = co_yield a + 1; }
 
 inline void settle_pair(World &w, Pair &p) { if (p.f && !p.resolved) { p.p(cocls::drop); p.resolved = true; } }
 
-inline void exec(World &w, const Prog &prog, std::vector<Parked> &parks, cocls::generator<int> &gen) {
+inline void exec(World &w, const Prog &prog, std::vector<Parked> &parks, cocls::generator<int> &gen, cocls::generator<int, int> &gen2) {
     for (auto &o : prog.ops) {
         Pair &p = w.pairs[o.a % NP];
         switch (o.code) {
@@ -132,7 +134,19 @@ inline void exec(World &w, const Prog &prog, std::vector<Parked> &parks, cocls::
                 c << std::move(h);
                 c.clear();
             } break;
-            case 8: { bool more = (bool)gen.next(); if (more) { w.gen_sum += gen.value(); w.gen_steps++; } } break;
+            case 8: if (o.b & 4) {
+                // synchronous step of a generator that takes an argument: handed over as a temporary, an expiring value or a variable
+                int a = o.a, got = -1; bool more;
+                switch (o.b & 3) {
+                    case 0: more = (bool)gen2.next(int(o.a)); break;
+                    case 1: { int v = a; more = (bool)gen2.next(std::move(v)); } break;
+                    case 2: more = (bool)gen2.next(a + 0); break;            // (a constant is not accepted: the parameter is Arg &)
+                    default: more = (bool)gen2.next(a); break;
+                }
+                if (more) got = gen2.value();
+                if (got != a + 1) hz::fail("generator with an argument answered %d to the argument %d (argument + 1 expected)", got, a);
+                w.gen_steps++;
+            } else { bool more = (bool)gen.next(); if (more) { w.gen_sum += gen.value(); w.gen_steps++; } } break;
             case 12: {
                 cocls::future<Big> f; cocls::promise<Big> pr = f.get_promise();
                 Big v; for (int i = 0; i < 8; i++) v.w[i] = o.a + i;
@@ -183,13 +197,14 @@ inline void run(hz::Reader &r) {
         std::vector<Parked> parks;
         for (int i = 0; i < 3; i++) parks.push_back(parked(&w->parked_count[i]));
         cocls::generator<int> gen = counting_gen();
+        cocls::generator<int, int> gen2 = echo_gen();
         // warm the thread's ready queue (its node storage is exempt by construction, see interpose.h)
         hz::measure_begin();
-        exec(*w, prog, parks, gen);
+        exec(*w, prog, parks, gen, gen2);
         unsigned long first = hz::measured_so_far();
         // metamorphic cross-check: doubling the operations leaves the count at 0
         w->ncb = 0;
-        exec(*w, prog, parks, gen);
+        exec(*w, prog, parks, gen, gen2);
         unsigned long total = hz::measure_end();
         HZ_CHECK(first == 0, "%lu dynamic allocations (operator new) inside the measured region: the primitives allocated although every user frame lives in the arena", first);
         HZ_CHECK(total == 0, "%lu dynamic allocations after the program was executed a second time", total);
@@ -214,7 +229,7 @@ namespace hz {
 static const Info I = {
     "C20", 1, 121, 100000, true, true,
     "stateful byte-decoded programs (rapidcheck), up to 40 ops over {create future/promise pair, add coroutine waiter (frame in a pre-allocated arena via with_allocator), add callback awaiter, resolve with value / exception / drop, destroy pair, "
-    "mutex episode (owner + 2..4 contending lockers handed over one by one), suspend point episode with <=3 handles (construct, <<, move, merge, pop, clear; or co_await by a coroutine on a suspend point carrying three ready coroutines - its own handle through cocls::self among them or not), step a synchronous generator, blocking wait on a ready future or by a waiter thread, a coroutine blocking in force_wait() with another coroutine queued behind it while a second thread resolves, callback_await_alloc with its helper frame in the arena and a small or 100-byte callback, a future of a 64-byte value resolved through promise::bind()}; "
+    "mutex episode (owner + 2..4 contending lockers handed over one by one), suspend point episode with <=3 handles (construct, <<, move, merge, pop, clear; or co_await by a coroutine on a suspend point carrying three ready coroutines - its own handle through cocls::self among them or not), step a synchronous generator (without argument, or with an argument handed over as a temporary / expiring value / variable), blocking wait on a ready future or by a waiter thread, a coroutine blocking in force_wait() with another coroutine queued behind it while a second thread resolves, callback_await_alloc with its helper frame in the arena and a small or 100-byte callback, a future of a 64-byte value resolved through promise::bind()}; "
     "the whole program runs inside a measured region of the counting global operator new (thread creation and the node storage of each thread's ready queue - the first deque of handles a thread constructs - are exempt by construction; any other container is counted) and is then executed a second time (metamorphic doubling). "
     "Oracle: operator new count inside the region == 0 after the first and after the second execution; all waiters finished, all lock requests granted. Non-trivial = >=1 waiter and >=1 contended mutex hand-over; distinct = hash(decoded program, executed switch trace).",
     c20::class_names, 4, c20::counter_names, 2};
